@@ -10,7 +10,6 @@ CLAIMED = {
  "C20": ("Every path of ValidateCounterpartyID / NewCrossChainID / ID / ParseCrossChainID / CounterpartyID() (real SSA incl. the real strconv parsers) is executed symbolically over ALL counterparty strings up to the bound and all 2^32 domains; accepted<=>canonical-uint32, form->pair->form round trip and injectivity are decided by solver verdict per path; every counterexample is replayed against the natively compiled code before it is reported.",
          "Bounds: counterparty strings <= 12 bytes quick / <= 33 bytes thorough (33 = one past the code's own MaxCounterpartyIDLength), full-id strings <= 8/12 bytes for the parser soundness harness, two pairs of <= 3/5 bytes for distinctness. Trusted: IsValidChannelID summarised as a byte predicate; fmt.Sprintf(%d)/FormatUint summarised relationally (x = sum d_i*10^i). Validated each run by native trace comparison.",
          "DESIGN.md §3 C20"),
-}
 
  "C04": ("The real FeeController.HandlePacket (attribute extraction and validation, ComputeFeesToDistribute, ComputeFeeAmount, total check, executeAction, destination update) is executed symbolically on a bank-ledger model for ALL amounts in [1,2^256), all uint32 bps, all fixed amounts (any integer, and non-numbers), lists of 0..N entries of mixed kinds with repeated / malformed recipients. Asserted per path: refusal iff one of the stated reasons (incl. both overflow kinds), nothing paid and nothing changed on refusal, each bps credit c satisfies 10000c <= A*bps < 10000(c+1), fixed credits exact, list order, recipients, forwarded = A - sum > 0. Non-linear integer queries decided by z3/cvc5; counterexamples replayed natively.",
          "Bounds: 0..2 entries quick, 0..6 entries thorough (one past MaxFeeRecipients). Recipients are concrete strings (valid, repeated, malformed); bech32 decoding is the SDK's. math.Int is modelled as an SMT Int with the 2^256 limit; reference formulas use unbounded integers.",
